@@ -250,6 +250,77 @@ def fd_daemon_leg(ctx, rep, rnd, tier):
     return n
 
 
+def corrupt_tail_leg(ctx, rep, rnd, tier, only=None):
+    """through the real socket transport and bus: K valid messages to a second connection, then an invalid message and one more
+    valid message, written in various partitions (one write for everything; cuts before / inside / after the invalid message;
+    byte by byte): the receiver must get exactly the K messages before the invalid one, in order, for EVERY partition"""
+    import time
+    sys.path.insert(0, os.path.join(vlib.VERIF, "harness", "py"))
+    from rawbus import Daemon, Msg, RawConn
+    d = Daemon(ctx["info"]["daemon"])
+    n = 0
+    try:
+        b = RawConn(d.address)
+        b.hello()
+        configs = [(1, "version"), (3, "version"), (5, "string"), (17, "type0"), (4, "string")] if tier == "quick" else \
+                  [(k, kind) for k in (1, 2, 3, 5, 9, 17, 40) for kind in ("version", "string", "type0", "length")]
+        if only is not None:
+            configs = [(only["k"], only["kind"])]
+        for K, kind in configs:
+            def stream():
+                ms = [Msg(1, 1, 10 + k, {1: "/t", 2: "t.I", 3: "M%d" % k, 6: b.unique}, "su", ("x" * (k % 7), k), le=(k % 2 == 0)).encode() for k in range(K)]
+                bad = bytearray(Msg(1, 1, 900, {1: "/t", 2: "t.I", 3: "BAD", 6: b.unique}, "s", ("hello",)).encode())
+                if kind == "version":
+                    bad[3] = 2
+                elif kind == "type0":
+                    bad[1] = 0
+                elif kind == "length":
+                    bad[4:8] = b"\xff\xff\xff\x7f"
+                else:
+                    bad[-3] = 0xff           # invalid UTF-8 inside the body string: only visible once the whole message is there
+                after = Msg(1, 1, 901, {1: "/t", 2: "t.I", 3: "AFTER", 6: b.unique}, "", ()).encode()
+                return ms, bytes(bad), after
+            ms, bad, after = stream()
+            pre = sum(len(m) for m in ms)
+            whole = b"".join(ms) + bad + after
+            cutsets = [[], [pre], [pre + 1], [pre + 15], [pre + 16], [pre + 17], [pre + len(bad) - 1], [pre + len(bad)], [pre - 1] if pre > 1 else [1],
+                       [len(ms[0])], [pre, pre + len(bad)], list(range(1, len(whole))) if len(whole) < 700 else [pre + 8]]
+            for _ in range(2 if tier == "quick" else 10):
+                cutsets.append(sorted(set(rnd.randrange(1, len(whole)) for _ in range(rnd.randint(1, 4)))))
+            if only is not None:
+                cutsets = [only["cuts"]]
+            for cuts in cutsets:
+                a = RawConn(d.address)
+                a.hello()
+                try:
+                    for c in split_at(whole, cuts):
+                        a.send_raw(c)
+                        if len(cuts) < 50:
+                            time.sleep(0.003)
+                except OSError:
+                    pass
+                t_end = time.time() + 5.0
+                while not a.is_closed(0.05) and time.time() < t_end:
+                    pass
+                closed = a.closed
+                a.close()
+                b.barrier()
+                got = [m.fields.get(3) for m in b.drain(quiet=0.02, maxwait=0.5) if m.fields.get(2) == "t.I"]
+                n += 1
+                want = ["M%d" % k for k in range(K)]
+                if got != want or not closed:
+                    rep.violation("stream of %d valid messages, an invalid one (%s) and one more, written in chunks %s: the receiver got %s (expected exactly the %d messages before the invalid one), sender disconnected=%s" % (
+                        K, kind, [len(c) for c in split_at(whole, cuts)][:12], got[:12], K, closed),
+                        {"leg": "corrupt-tail", "k": K, "kind": kind, "cuts": cuts, "got": got, "stream_hex": whole.hex()[:600]})
+                    break
+        b.close()
+    finally:
+        rc, err = d.stop()
+        if rc not in (0, -15) or "ERROR: AddressSanitizer" in err or "runtime error" in err:
+            rep.violation("daemon died or reported a sanitizer error during the corrupt-tail leg: rc=%s %s" % (rc, err[-500:]), {"leg": "corrupt-tail", "stderr": err})
+    return n
+
+
 def run(ctx):
     rep, tier, info = ctx["rep"], ctx["tier"], ctx["info"]
     rnd = random.Random(ctx["seed"])
@@ -295,6 +366,9 @@ def run(ctx):
         if rp.get("leg") == "handshake":
             handshake_leg(ctx, rep, rnd, tier)
             cases = []
+        elif rp.get("leg") == "corrupt-tail":
+            corrupt_tail_leg(ctx, rep, rnd, tier, only=rp)
+            cases = []
         elif rp.get("leg") == "fd-daemon":
             fd_daemon_leg(ctx, rep, rnd, tier)
             cases = []
@@ -335,17 +409,20 @@ def run(ctx):
     if not ctx.get("replay"):
         n_fd, n_lim = fd_stream_leg(ctx, rep, rnd, tier)
         n_fdd = fd_daemon_leg(ctx, rep, rnd, tier)
+        meta["corrupt_tail_partitions"] = corrupt_tail_leg(ctx, rep, rnd, tier)
     meta["fd_stream_cases"] = n_fd
     meta["fd_stream_cases_with_limited_reads"] = n_lim
     meta["fd_daemon_partitions"] = n_fdd
     rep.coverage.update({
-        "evaluations": len(cases) + n_hs + n_fd + n_fdd, "distinct_nontrivial": len(nontrivial),
+        "evaluations": len(cases) + n_hs + n_fd + n_fdd + meta.get("corrupt_tail_partitions", 0), "distinct_nontrivial": len(nontrivial),
         "rule": "streams of 1-8 random valid messages (both byte orders, sizes 16 B - 70 KB), half of them followed by a corrupted message and more bytes; "
                 "cut sets: every single cut at fixed-header/ header-end / message-end boundaries +-1, one-byte chunks for streams <= 600 bytes, random multi-cuts; "
                 "all subsets of 14 boundary cut points of a two-message stream (thorough; every 7th in quick). non-trivial = more than one chunk. "
                 "descriptor leg: streams of 1-5 messages with UNIX_FDS 0-3 each, descriptors handed over with the first read, same cut sets, through the transport's reading loop "
                 "honouring the loader's read limit: limits asked for, stall flag, messages and verdict = model (max_to_read / feed_limited) and = unsplit; "
-                "and against the real daemon: a descriptor-carrying message to oneself written in two pieces cut at offsets 1..25, header end +-1, last byte, both byte orders",
+                "and against the real daemon: a descriptor-carrying message to oneself written in two pieces cut at offsets 1..25, header end +-1, last byte, both byte orders; "
+                "corrupt-tail leg against the real daemon: K valid messages to a second connection + an invalid one (bad version / type 0 / insane length / bad UTF-8 in the body) + one more, "
+                "in one write and cut before / inside / after the invalid message and byte by byte: the receiver gets exactly the K messages, the sender is disconnected",
         "samples": [{"chunks": [len(c) for c in ch][:20], "impl": i[:100]} for (_, ch), i in list(zip(cases, impl))[::max(1, len(cases) // 8)]][:8],
         "input_distribution": meta, "traces_validated_against_impl": len(cases), "disagreements_checked": len(rep.violations),
     })
